@@ -694,6 +694,59 @@ def r9_reader_keeps_everything(ctx: Context) -> None:
     ctx.floor("C08.R9", "collections handed over by the reader", n, 3)
 
 
+def r13_reader_updates_unconditional(ctx: Context) -> None:
+    ctx.rule("C08.R13", "in the reader, the state a row kind establishes on an already reconstructed task / task graph "
+                        "(`tasks[k].cancelled = True`, completion and slack of a finished graph, ...) is stored for every row of that "
+                        "kind: such stores sit at the top level of the row's case, not inside the create-if-missing guard")
+    mod = ctx.repo.mod("data/csv_reader.py")
+    n = 0
+    for case in ast.walk(mod.tree):
+        if not (isinstance(case, ast.If) and isinstance(case.test, ast.Compare) and norm(case.test.left) == "reading[1]"):
+            continue
+        tag = norm(case.test.comparators[0]).strip("'\"")
+        for a in ast.walk(ast.Module(body=case.body, type_ignores=[])):
+            if isinstance(a, ast.Assign) and isinstance(a.targets[0], ast.Attribute) and isinstance(a.targets[0].value, ast.Subscript) \
+                    and isinstance(a.targets[0].value.value, ast.Name):
+                n += 1
+                p = parent(a)
+                top = any(a is x for x in case.body)
+                ctx.check(top, "C08.R13", f"{qualname(case)}|{tag}: `{norm(a.targets[0])[:50]}` stored for every row", loc(a), "top level of the case",
+                          f"`{norm(a)[:70]}` is only executed under `{norm(p.test)[:60] if isinstance(p, ast.If) else '?'}`: a {tag} row for an entry that "
+                          "already exists (e.g. a task that was released before it was cancelled) leaves the reconstructed state unchanged, so the "
+                          "reader's view disagrees with the run while the trace is still accepted")
+    ctx.floor("C08.R13", "per-row state stores in the reader", n, 6)
+
+
+def r14_rows_read_the_handled_event(ctx: Context) -> None:
+    ctx.rule("C08.R14", "every CSV row and counter update of a handler reads the event the handler was called with: no "
+                        "re-binding of the handler's event parameter can reach a row emission or a counter increment")
+    sim = Sim(ctx.repo)
+    rows, _ = run_rows(ctx)
+    n = 0
+    for name, h in sim.methods.items():
+        params = [a.arg for a in h.args.args[1:]]
+        if not params:
+            continue
+        ev = params[0]
+        rebinds = [a for a in ast.walk(h) if isinstance(a, (ast.Assign, ast.AugAssign, ast.For))
+                   and any(isinstance(t, ast.Name) and t.id == ev for t in ast.walk(a.targets[0] if isinstance(a, ast.Assign) else a.target))]
+        if not rebinds:
+            continue
+        g = cfgmod.build(h)
+        uses = [r.call for r in rows if r.func is h] + [x for x in ast.walk(h) if isinstance(x, ast.AugAssign) and is_self_attr(x.target)]
+        for u in uses:
+            if not any(isinstance(x, ast.Name) and x.id == ev for x in ast.walk(u if not isinstance(u, ast.AugAssign) else parent(u))):
+                # a counter increment reads the event through its guarding test
+                pass
+            n += 1
+            un = g.node_of(u)
+            reach = [rb for rb in rebinds if g.reachable(g.node_of(rb), un)]
+            ctx.check(not reach, "C08.R14", f"{qualname(h)}|`{norm(u)[:46]}` reads the handled event", loc(u), f"`{ev}` still is the parameter here",
+                      f"`{ev}` is re-bound at line {reach[0].lineno if reach else '?'} (`{norm(reach[0])[:50] if reach else ''}`) on a path that reaches "
+                      f"`{norm(u)[:60]}`: the row / counter then describes another event (e.g. the last released child instead of the task that finished)")
+    ctx.floor("C08.R14", "row emissions / counter updates in handlers that re-bind their event parameter", n, 3)
+
+
 def r7_census(ctx: Context) -> None:
     ctx.rule("C08.R7", "Workload.get_cancelled_task_graphs returns exactly the graphs for which is_cancelled() holds; "
                        "TaskGraph.is_cancelled = any sink CANCELLED")
@@ -743,6 +796,8 @@ def run(ctx: Context) -> None:
     ctx.isolate(r6_miss_iff_late)
     ctx.isolate(r7_census)
     ctx.isolate(r9_reader_keeps_everything)
+    ctx.isolate(r13_reader_updates_unconditional)
+    ctx.isolate(r14_rows_read_the_handled_event)
     from . import c06
     ctx.isolate(c06.r5_cancellation_reported, _alias={"C06.R5": "C08.R8"})
     from . import c07, c18
